@@ -316,7 +316,7 @@ func c08ExclusionSets(n, h int) [][]int {
 
 func c08WalletCfgs(thorough bool) []c08WalletCfg {
 	if !thorough {
-		return []c08WalletCfg{{N: 3, H: 2, Excluded: []int{2}, Seed: 200}}
+		return []c08WalletCfg{{N: 5, H: 3, Excluded: []int{2}, Seed: 200}, {N: 3, H: 2, Excluded: []int{2}, Seed: 7000}}
 	}
 	var cs []c08WalletCfg
 	for _, e := range c08ExclusionSets(5, 3) {
